@@ -110,6 +110,16 @@ NAMED = {
     "tabs": lambda n: "\t" * n,
     "hardbreaks": lambda n: "a  \n" * n,
     "quotes_typo": lambda n: "\"a' " * n,
+    # block quotes directly followed by a text line, many times, no blank line anywhere: what the quote's look-ahead
+    # absorbs and what the nested parse then accepts
+    "quote_then_text": lambda n: "> q\nr\n" * n,
+    "quote_blank2_then_text": lambda n: "> q\n>  \nr\n" * n,
+    "quote_blanktab_then_text": lambda n: "> q\n>\t\nr\n" * n,
+    "quote_blank_then_text": lambda n: "> q\n>\nr\n" * n,
+    "quote_hr_then_text": lambda n: "> ---\nr\n" * n,
+    "quote_list_then_text": lambda n: "> - a\nr\n" * n,
+    "list_then_text": lambda n: "- a\nr\n" * n,
+    "list_hr_then_text": lambda n: "- ---\nr\n" * n,
     "dashes_typo": lambda n: "-- ... " * n,
     "linkify_urls": lambda n: "http://a.b " * n,
     "linkify_at": lambda n: "a@b.c " * n,
